@@ -11,3 +11,4 @@ import Vise.Db
 import Vise.PgTx
 import Vise.Asm
 import Vise.FsCrash
+import Vise.Conc
